@@ -940,3 +940,63 @@ m('C01', 'composed_filter_forgets_new', 'src/par/par_flatmap_fil.rs', "let compo
 m('C02', 'find_forgets_predicate', 'src/par/par_map_fil.rs', "let composed = move |x: &O| filter(x) && predicate(x);", "let composed = move |x: &O| filter(x);", 'C01-KEEP')
 m('C02', 'find_forgets_filter', 'src/par/par_filtermap_fil.rs', "let composed = move |x: &O| filter(x) && predicate(x);", "let composed = move |x: &O| predicate(x);", 'C01-KEEP')
 m('C01', 'vec_reserves_nothing', 'src/par/collect_into/vec.rs', "                self.reserve(iter_len);", "                self.reserve(0 * iter_len);", 'C01-RESERVE')
+m('C02', 'find_stops_when_iter_reports_nothing_left', 'src/core/map_fil_find.rs', """                    iter.skip_to_end();
+                    return result;
+                }
+            }
+            None""", """                    iter.skip_to_end();
+                    return result;
+                }
+                if !matches!(iter.has_more(), orx_concurrent_iter::HasMore::Yes(_)) {
+                    break;
+                }
+            }
+            None""", 'C02-EXHAUST')
+m('C02', 'find_gives_up_after_first_chunk', 'src/core/flatmap_fil_find.rs', """                    iter.skip_to_end();
+                    return result;
+                }
+            }
+""", """                    iter.skip_to_end();
+                    return result;
+                }
+                break;
+            }
+""", 'C02-EXHAUST')
+b('C02', 'find_exhaustion_via_loop_match', 'src/core/map_fil_find.rs', """            while let Some(chunk) = buffered.next() {
+                let result = chunk
+                    .values
+                    .enumerate()
+                    .map(|x| (x.0, map(x.1)))
+                    .find(|x| filter(&x.1))
+                    .map(|x| (chunk.begin_idx + x.0, x.1));
+
+                if result.is_some() {
+                    iter.skip_to_end();
+                    return result;
+                }
+            }
+            None""", """            loop {
+                let chunk = match buffered.next() {
+                    Some(chunk) => chunk,
+                    None => return None,
+                };
+                let result = chunk
+                    .values
+                    .enumerate()
+                    .map(|x| (x.0, map(x.1)))
+                    .find(|x| filter(&x.1))
+                    .map(|x| (chunk.begin_idx + x.0, x.1));
+
+                if let Some(found) = result {
+                    iter.skip_to_end();
+                    return Some(found);
+                }
+            }""")
+m('C06', 'collect_target_overwritten_by_single_worker_result', 'src/core/filtermap_fil_col.rs', """    heap_sort_into_vec(vectors, output);""", """    if vectors.len() == 1 {
+        let mut vectors = vectors;
+        *output = vectors.pop().expect("one").into_iter().map(|x| x.1).collect();
+    } else {
+        heap_sort_into_vec(vectors, output);
+    }""", 'C06-MUT')
+m('C01', 'eager_intermediate_unordered', 'src/par/par_filtermap_fil.rs', """        let vec = self.collect_vec();""", """        let vec: Vec<_> = self.collect_x().into_iter().collect();""", 'C01-NOSHUFFLE')
+m('C13', 'split_reservation_ignores_existing_len', 'src/par/collect_into/split_vec.rs', "Some(len) => self.reserve_maximum_concurrent_capacity(self.len() + len),", "Some(len) => self.reserve_maximum_concurrent_capacity(len),", 'C01-RESERVE')
